@@ -1,6 +1,7 @@
 import GcArena.Proofs.Events
 import GcArena.Proofs.Exact
 import GcArena.Proofs.RunBridge
+import GcArena.Proofs.Release
 /-!
 # C02 — Exact, complete reclamation
 
@@ -143,6 +144,43 @@ theorem shells_run (n : Nat) (pre : List Op) :
   rw [hctx] at ho
   exact shells a.ctx a.root (h.cinv0 hcb) i o ho hl
 
+/-- **Complete reclamation over histories** (proved).  On any sleeping state an arena can reach,
+    outside callbacks: an allocated object `i` — destructed shell or not — to which *no chain of
+    pointers of either kind* leads from the root (`Nameable`: follow `Gc` and `GcWeak` alike) has
+    been released by the time the next cycle completes (a `'Z'`, the `Sweep → Sleep` switch, has
+    been appended to the step log), whatever was interleaved: callbacks of every kind with any
+    allocations, stores, barriers, upgrades and resurrections, and collection calls of every
+    method, self- or oracle-driven, with faults. -/
+theorem unnameable_released_run (n : Nat) (pre : List Op) (i : Nat) (o : Obj) (ops : List Op) :
+    let a := (Arena.new n).run pre
+    a.alive = true → a.cb = none → a.ctx.phase = .sleep →
+    a.ctx.heap.get i = some o → ¬ Nameable a.ctx a.root i →
+    (a.run ops).alive = true →
+    (∃ new, (a.run ops).ctx.steps = new ++ a.ctx.steps ∧ 'Z' ∈ new) →
+    (a.run ops).ctx.heap.get i = none ∧ Event.freed i ∈ (a.run ops).ctx.log := by
+  intro a halive hcb hsl ho hnn hal ⟨new, hnew, hz⟩
+  have h : Inv a := inv_run n pre halive
+  have hw := h.cinv.sleepWhite hsl
+  have d : Doomed a.ctx a.root a.temps i := by
+    rw [h.cbTemps hcb]
+    exact ⟨⟨o, ho, hw i o ho⟩, fun he => hnn (nameable_of_exposed hw he),
+      fun hp => by rw [hsl] at hp; cases hp⟩
+  exact doomed_released_run h i ops d hal (zc_lt_of_suffix hnew hz)
+
+/-- **Shell release over histories** (proved): the instance for a destructed shell.  The premise
+    "no chain of pointers of either kind from the root" is stronger than "not weakly held by the
+    root or by a strongly reachable object" (`nameable_of_weakHeld`), and has to be: see
+    `unheld_shell_can_survive` below. -/
+theorem shell_release_run (n : Nat) (pre : List Op) (i : Nat) (o : Obj) (ops : List Op) :
+    let a := (Arena.new n).run pre
+    a.alive = true → a.cb = none → a.ctx.phase = .sleep →
+    a.ctx.heap.get i = some o → o.live = false → ¬ Nameable a.ctx a.root i →
+    (a.run ops).alive = true →
+    (∃ new, (a.run ops).ctx.steps = new ++ a.ctx.steps ∧ 'Z' ∈ new) →
+    (a.run ops).ctx.heap.get i = none ∧ Event.freed i ∈ (a.run ops).ctx.log := by
+  intro a halive hcb hsl ho _ hnn hal hz
+  exact unnameable_released_run n pre i o ops halive hcb hsl ho hnn hal hz
+
 /-! ### Non-vacuity: a cycle of garbage and a weakly held shell -/
 
 /-- 0 ⇄ 1 is an unreachable cycle; 2 is held weakly by the root only. -/
@@ -205,12 +243,14 @@ example : ∃ o, (finishCycle2 held.ctx held.root).heap.get 0 = some o ∧ o.liv
   exact (exactness _ _ hc 0).mpr (.root 0 (by decide))
 
 /-- After `demo` (object 2 is a shell held weakly by the root) the root drops its weak pointer. -/
-def unheld : Arena := (Arena.new 1).run (demo ++ [.enter .mutateRoot, .rootStore 0 none, .leave])
+def unheldPre : List Op := demo ++ [.enter .mutateRoot, .rootStore 0 none, .leave]
+
+def unheld : Arena := (Arena.new 1).run unheldPre
 
 /-- `shell_release` applies to `unheld`: all its hypotheses hold, so the next `finish_cycle`
     releases the shell 2. -/
 example : (unheld.ctx.doCollection unheld.root .stop .finishCycle none).1.heap.get 2 = none := by
-  have h := inv_run 1 (demo ++ [.enter .mutateRoot, .rootStore 0 none, .leave]) (by decide)
+  have h := inv_run 1 unheldPre (by decide)
   have hc : CInv unheld.ctx unheld.root [] := by
     have hc := h.cinv
     rw [h.cbTemps (by decide)] at hc
@@ -236,5 +276,79 @@ example : ∃ o, (held.run [.collect .finishCycle .drop none none,
     .collect .finishCycle .drop none none]).ctx.heap.get 0 = some o ∧ o.live = true :=
   ((exactness_run 1 [.enter .mutateRoot, .alloc true [none], .rootStore 0 (some (.strong 0)), .leave]
     (by decide) (by decide)).2.2 0).mpr (.root 0 (by decide))
+
+/-! ### `shell_release_run`: non-vacuity, and why its premise cannot be weakened -/
+
+/-- `unheld` again (shell 2, the root no longer holds its weak pointer): nothing at all is
+    nameable, so after *any* history that completes a cycle — here a callback that allocates and
+    stores, then an incremental cycle in three calls with another callback in between — the shell
+    is released. -/
+def unheldOps : List Op := [
+  .enter .mutateRoot, .alloc true [none], .rootStore 0 (some (.strong 3)), .leave,
+  .collect .finishMarking .sweep none none,
+  .enter .mutate, .readRoot 0, .alloc true [none], .store .write 3 0 (some (.strong 4)), .leave,
+  .collect .finishCycle .drop none none ]
+
+example : (unheld.run unheldOps).ctx.heap.get 2 = none ∧ Event.freed 2 ∈ (unheld.run unheldOps).ctx.log := by
+  unfold unheld
+  have hroot : ((Arena.new 1).run unheldPre).root = [none] := by decide
+  have hnn : ¬ Nameable ((Arena.new 1).run unheldPre).ctx ((Arena.new 1).run unheldPre).root 2 := by
+    have : ∀ j, ¬ Nameable ((Arena.new 1).run unheldPre).ctx ((Arena.new 1).run unheldPre).root j := by
+      intro j hj
+      induction hj with
+      | root p hp => rw [hroot] at hp; simp at hp
+      | edge _ _ _ _ _ _ ih => exact ih
+    exact this 2
+  exact shell_release_run 1 unheldPre 2 ⟨.white, true, false, []⟩ unheldOps (by decide) (by decide)
+    (by decide) (by decide) rfl hnn (by decide)
+    ⟨['Z', 'e', 'x', 'x', 'S', 'b', 'b', 'g', 'r', 'W'], by decide, by decide⟩
+
+/-- root → A(0); `A.1 = weak X(1)`; `X.0 = weak S(2)`; S is a destructed shell; X is undestructed
+    but no longer strongly reachable.  Asleep, outside callbacks. -/
+def weakChain : List Op := [
+  .enter .mutateRoot, .alloc true [none, none], .alloc true [none], .alloc true [none],
+  .downgrade 2, .store .write 1 0 (some (.weak 2)),
+  .downgrade 1, .store .write 0 0 (some (.strong 1)), .store .write 0 1 (some (.weak 1)),
+  .rootStore 0 (some (.strong 0)), .leave,
+  .collect .finishCycle .drop none none,
+  .enter .mutate, .readRoot 0, .store .write 0 0 none, .leave ]
+
+/-- A callback that stores no `GcWeak` to S anywhere: it upgrades the weak pointer to X (legal:
+    X is undestructed and the arena is not sweeping) and stores the *strong* pointer to X. -/
+def reviveHolder : List Op := [
+  .enter .mutate, .readRoot 0, .read 0 1, .upgrade 1, .store .write 0 0 (some (.strong 1)), .leave,
+  .collect .finishCycle .drop none none ]
+
+/-- **Why "not weakly held" is not enough over histories.**  In `weakChain` the shell 2 is not
+    weakly held by the root or by any strongly reachable object, and `reviveHolder` stores no weak
+    pointer to it; a full cycle completes — and the shell is still allocated.  (Run the cycle at
+    once instead and it is released: `shell_release`.)  The shell *is* `Nameable`: root → 0 ⇢ 1 ⇢ 2. -/
+theorem unheld_shell_can_survive :
+    let a := (Arena.new 1).run weakChain
+    a.alive = true ∧ a.cb = none ∧ a.ctx.phase = .sleep ∧
+    a.ctx.heap.get 2 = some ⟨.white, true, false, []⟩ ∧ ¬ WeakHeld a.ctx a.root 2 ∧
+    (a.run reviveHolder).ctx.steps.count 'Z' = a.ctx.steps.count 'Z' + 1 ∧
+    (a.run reviveHolder).ctx.heap.get 2 = some ⟨.white, true, false, []⟩ ∧
+    (a.run [.collect .finishCycle .drop none none]).ctx.heap.get 2 = none := by
+  intro a
+  have hroot : a.root = [some (.strong 0)] := by decide
+  have h0 : a.ctx.heap.get 0 = some ⟨.white, true, true, [none, some (.weak 1)]⟩ := by decide
+  have reach : ∀ j, StrongReachC a.ctx a.root j → j = 0 := by
+    intro j hj
+    induction hj with
+    | root t ht => rw [hroot] at ht; simpa using ht
+    | temp t ht => cases ht
+    | edge i t _ e ih =>
+      subst ih
+      obtain ⟨o, ho, hs⟩ := e
+      rw [h0] at ho; cases ho
+      simp at hs
+  refine ⟨by decide, by decide, by decide, by decide, ?_, by decide, by decide, by decide⟩
+  rintro (hw | ⟨j, oj, hj, hoj, hs⟩)
+  · rw [hroot] at hw; simp at hw
+  · have := reach j hj
+    subst this
+    rw [h0] at hoj; cases hoj
+    simp at hs
 
 end GcArena.C02
